@@ -56,8 +56,11 @@ def instances(seed, n_eval, n_gen):
         d = os.path.join(common.subdir('m3gen-%d' % os.getpid()), 'g%d' % k)
         random.seed(sd)
         np.random.seed(sd % (2 ** 32))
-        with impl.quiet():
-            Generator(('-numinst 1 -o %s -mp %s %s' % (d, mp, tail)).split())
+        try:
+            with impl.quiet():
+                Generator(('-numinst 1 -o %s -mp %s %s' % (d, mp, tail)).split())
+        except BaseException:  # noqa  - the generator is not the subject here (C08/C09/C15 judge it): skip the vector
+            continue
         out.append(('generator -mp %s %s seed=%d' % (mp, tail, sd), list(open(os.path.join(d, '0.txt'), 'rb').read()), na, two))
     return out
 
